@@ -235,27 +235,77 @@ package types
 //@   ensures result.ID == id
 //@ func NewEventGroupStarted
 //@   ensures result.ID == id
+// ---- C16: events render to, and parse back from, attribute lists ----
+//@ spec carriesDID(attrs: []sdk.Attribute, id: DeploymentID): bool =
+//@     attrHas(attrs, "owner") && attrVal(attrs, "owner") == id.Owner && attrHas(attrs, "dseq") && attrVal(attrs, "dseq") == itoa(id.DSeq)
+//@ spec carriesGID(attrs: []sdk.Attribute, id: GroupID): bool =
+//@     attrHas(attrs, "owner") && attrVal(attrs, "owner") == id.Owner && attrHas(attrs, "dseq") && attrVal(attrs, "dseq") == itoa(id.DSeq)
+//@     && attrHas(attrs, "gseq") && attrVal(attrs, "gseq") == itoa(id.GSeq)
+//@ spec carriesHead(attrs: []sdk.Attribute, action: str): bool =
+//@     attrHas(attrs, "module") && attrVal(attrs, "module") == "deployment" && attrHas(attrs, "action") && attrVal(attrs, "action") == action
+// hexadecimal rendering of the version (encoding/hex, A-LIB)
+//@ spec hexEnc(b: str): str
+//@ func encodeHex
+//@   trusted
+//@   ensures result == hexEnc(src)
+//@ func decodeHex
+//@   trusted
+//@   ensures forall b: str {hexEnc(b)} :: src == hexEnc(b) ==> result1 == nil && result0 == b
+//@ func DeploymentIDEVAttributes
+//@   fresh
+//@   ensures len(result) == 2 && result[0].Key == "owner" && result[0].Value == id.Owner && result[1].Key == "dseq" && result[1].Value == itoa(id.DSeq)
+//@ func GroupIDEVAttributes
+//@   fresh
+//@   ensures len(result) == 3 && result[0].Key == "owner" && result[0].Value == id.Owner && result[1].Key == "dseq" && result[1].Value == itoa(id.DSeq)
+//@        && result[2].Key == "gseq" && result[2].Value == itoa(id.GSeq)
+//@ func ParseEVDeploymentID
+//@   ensures [roundtrip] forall id: DeploymentID {validBech32(id.Owner)} :: carriesDID(attrs, id) && canonicalAddr(id.Owner) ==> result1 == nil && result0 == id
+//@ func ParseEVGroupID
+//@   ensures [roundtrip] forall id: GroupID {validBech32(id.Owner)} :: carriesGID(attrs, id) && canonicalAddr(id.Owner) ==> result1 == nil && result0 == id
+//@ func ParseEVDeploymentVersion
+//@   ensures [roundtrip] forall v: str {hexEnc(v)} :: attrHas(attrs, "version") && attrVal(attrs, "version") == hexEnc(v) ==> result1 == nil && result0 == v
 //@ func (EventDeploymentCreated).ToSDKEvent
-//@   trusted
-//@   ensures evSig(result) == sigDeployment(1, ev.ID)
+//@   ensures assumed evSig(result) == sigDeployment(1, ev.ID)
+//@   ensures evType(result) == "akash.v1" && carriesHead(evAttrs(result), "deployment-created") && carriesDID(evAttrs(result), ev.ID)
+//@        && attrHas(evAttrs(result), "version") && attrVal(evAttrs(result), "version") == hexEnc(ev.Version)
 //@ func (EventDeploymentUpdated).ToSDKEvent
-//@   trusted
-//@   ensures evSig(result) == sigDeployment(2, ev.ID)
+//@   ensures assumed evSig(result) == sigDeployment(2, ev.ID)
+//@   ensures evType(result) == "akash.v1" && carriesHead(evAttrs(result), "deployment-updated") && carriesDID(evAttrs(result), ev.ID)
+//@        && attrHas(evAttrs(result), "version") && attrVal(evAttrs(result), "version") == hexEnc(ev.Version)
 //@ func (EventDeploymentClosed).ToSDKEvent
-//@   trusted
-//@   ensures evSig(result) == sigDeployment(3, ev.ID)
+//@   ensures assumed evSig(result) == sigDeployment(3, ev.ID)
+//@   ensures evType(result) == "akash.v1" && carriesHead(evAttrs(result), "deployment-closed") && carriesDID(evAttrs(result), ev.ID)
 //@ func (EventGroupClosed).ToSDKEvent
-//@   trusted
-//@   ensures evSig(result) == sigGroup(1, ev.ID)
+//@   ensures assumed evSig(result) == sigGroup(1, ev.ID)
+//@   ensures evType(result) == "akash.v1" && carriesHead(evAttrs(result), "group-closed") && carriesGID(evAttrs(result), ev.ID)
 //@ func (EventGroupPaused).ToSDKEvent
-//@   trusted
-//@   ensures evSig(result) == sigGroup(2, ev.ID)
+//@   ensures assumed evSig(result) == sigGroup(2, ev.ID)
+//@   ensures evType(result) == "akash.v1" && carriesHead(evAttrs(result), "group-paused") && carriesGID(evAttrs(result), ev.ID)
 //@ func (EventGroupStarted).ToSDKEvent
-//@   trusted
-//@   ensures evSig(result) == sigGroup(3, ev.ID)
+//@   ensures assumed evSig(result) == sigGroup(3, ev.ID)
+//@   ensures evType(result) == "akash.v1" && carriesHead(evAttrs(result), "group-started") && carriesGID(evAttrs(result), ev.ID)
+// every event this module emits parses back to the typed event that was emitted
+//@ func ParseEvent
+//@   ensures [created] forall id: DeploymentID, v: str {validBech32(id.Owner), hexEnc(v)} :: ev.Type == "akash.v1" && ev.Module == "deployment" && ev.Action == "deployment-created" && old(carriesDID(ev.Attributes, id))
+//@        && canonicalAddr(id.Owner) && old(attrHas(ev.Attributes, "version") && attrVal(ev.Attributes, "version") == hexEnc(v)) ==>
+//@        result1 == nil && typeis(result0, EventDeploymentCreated) && unbox(result0, EventDeploymentCreated).ID == id && unbox(result0, EventDeploymentCreated).Version == v
+//@   ensures [updated] forall id: DeploymentID, v: str {validBech32(id.Owner), hexEnc(v)} :: ev.Type == "akash.v1" && ev.Module == "deployment" && ev.Action == "deployment-updated" && old(carriesDID(ev.Attributes, id))
+//@        && canonicalAddr(id.Owner) && old(attrHas(ev.Attributes, "version") && attrVal(ev.Attributes, "version") == hexEnc(v)) ==>
+//@        result1 == nil && typeis(result0, EventDeploymentUpdated) && unbox(result0, EventDeploymentUpdated).ID == id && unbox(result0, EventDeploymentUpdated).Version == v
+//@   ensures [closed] forall id: DeploymentID {validBech32(id.Owner)} :: ev.Type == "akash.v1" && ev.Module == "deployment" && ev.Action == "deployment-closed" && old(carriesDID(ev.Attributes, id))
+//@        && canonicalAddr(id.Owner) ==> result1 == nil && typeis(result0, EventDeploymentClosed) && unbox(result0, EventDeploymentClosed).ID == id
+//@   ensures [gclosed] forall id: GroupID {validBech32(id.Owner)} :: ev.Type == "akash.v1" && ev.Module == "deployment" && ev.Action == "group-closed" && old(carriesGID(ev.Attributes, id))
+//@        && canonicalAddr(id.Owner) ==> result1 == nil && typeis(result0, EventGroupClosed) && unbox(result0, EventGroupClosed).ID == id
+//@   ensures [gpaused] forall id: GroupID {validBech32(id.Owner)} :: ev.Type == "akash.v1" && ev.Module == "deployment" && ev.Action == "group-paused" && old(carriesGID(ev.Attributes, id))
+//@        && canonicalAddr(id.Owner) ==> result1 == nil && typeis(result0, EventGroupPaused) && unbox(result0, EventGroupPaused).ID == id
+//@   ensures [gstarted] forall id: GroupID {validBech32(id.Owner)} :: ev.Type == "akash.v1" && ev.Module == "deployment" && ev.Action == "group-started" && old(carriesGID(ev.Attributes, id))
+//@        && canonicalAddr(id.Owner) ==> result1 == nil && typeis(result0, EventGroupStarted) && unbox(result0, EventGroupStarted).ID == id
 
-//@ property C05 := (DeploymentID).Validate#*, EscrowAccountForDeployment#*, ParseDeploymentPath#*, ParseDeploymentID#*, DeploymentIDFromEscrowAccount#*
-//@ property C08 := (GroupID).Validate#*
+//@ property C16 := DeploymentIDEVAttributes#*, GroupIDEVAttributes#*, ParseEVDeploymentID#*, ParseEVGroupID#*, ParseEVDeploymentVersion#*, ParseEvent#*,
+//@     (EventDeploymentCreated).ToSDKEvent#*, (EventDeploymentUpdated).ToSDKEvent#*, (EventDeploymentClosed).ToSDKEvent#*,
+//@     (EventGroupClosed).ToSDKEvent#*, (EventGroupPaused).ToSDKEvent#*, (EventGroupStarted).ToSDKEvent#*,
+//@     NewEventDeploymentCreated#*, NewEventDeploymentUpdated#*, NewEventDeploymentClosed#*, NewEventGroupClosed#*, NewEventGroupPaused#*, NewEventGroupStarted#*
+
 //@ property C04 := EscrowAccountForDeployment#*, (Deployment).ID#*, (Group).ID#*, (GroupID).DeploymentID#*, MakeGroupID#*, (DeploymentID).Equals#*, (GroupID).Equals#*,
 //@                 (Group).ValidateClosable#*, (Group).ValidatePausable#*, (Group).ValidateStartable#*,
 //@                 NewEventDeploymentCreated#*, NewEventDeploymentUpdated#*, NewEventDeploymentClosed#*, NewEventGroupClosed#*, NewEventGroupPaused#*, NewEventGroupStarted#*
